@@ -208,7 +208,15 @@ class Poly:
                 cc = c ** int(a)
                 return Poly({tuple((at, e_scale_exp(ex, e)) for at, ex in m): cc})
             if c == 1:
-                return Poly({_norm_mono(tuple((at, e_mul(ex, e)) for at, ex in m)): Fr(1)})
+                # (x^k)^e with a non-integer / symbolic e: for an EVEN integer k the base is |x|^k, so the result is |x|^(k e)
+                # ((x^2)^(3/2) is |x|^3, not x^3); odd or fractional k already require x >= 0
+                parts = []
+                for at, ex in m:
+                    if ex[1] == 0 and ex[0].denominator == 1 and int(ex[0]) % 2 == 0 and ex[0] != 0 and not _nonneg_atom(at):
+                        (am, _c), = apply_fn("abs", Poly.atom(at)).t.items()
+                        at = am[0][0]
+                    parts.append((at, e_mul(ex, e)))
+                return Poly({_norm_mono(tuple(parts)): Fr(1)})
             if m == ():
                 # constant to a symbolic / fractional power: opaque
                 if c > 0:
@@ -377,6 +385,15 @@ def leading_negative(p):
     items = sorted(p.t.items(), key=lambda kv: tuple((atom_key(a), e) for a, e in kv[0]))
     # use the last (highest) monomial as the leading one
     return items[-1][1] < 0
+
+
+def _nonneg_atom(at):
+    """atoms that cannot be negative: absolute values, exponentials, cosh, even powers kept as named sub-terms"""
+    if at[0] == "f" and at[1] in ("abs", "exp", "cosh", "sqrt"):
+        return True
+    if at[0] == "c" and at[1] in ("EPS", "PI", "E", "n") :
+        return at[1] != "n"
+    return False
 
 
 def apply_fn(name, p):
